@@ -350,8 +350,13 @@ func (sn *node) getRetained(retained *[]*mqttp.Publish) {
 		if _, _, expired := p.Expired(); !expired {
 			*retained = append(*retained, p)
 		} else {
-			// publish has expired, thus nobody should get it
-			sn.retained.Store(retainer{})
+			// publish has expired, thus nobody should get it. It is wiped only if it still is what
+			// is stored: a message retained since the Load above must not go with it
+			if _, ok := val.(*mqttp.Publish); ok {
+				sn.retained.CompareAndSwap(rt, retainer{})
+			} else {
+				sn.retained.Store(retainer{})
+			}
 		}
 	}
 }
